@@ -127,24 +127,27 @@ def rule_branch(ctx, M):
     # FLUSH
     b = ent["flush"]
     bi = M.info(b)
-    tests = [s for s in bi.sites if s.key == ("Option", "is_some") and s.arg(0) == cfield("residual")]
     aws = costream.group_next_awaits(bi)
     probs = []
-    if len(tests) != 1:
-        probs.append("flush does not test the stored residual")
+    rets = flow.returned_values(bi)
+    # the stored residual is observed first: `if residual.is_some()` or `if let Some(r) = residual.take()`
+    obs = [s for s in bi.sites if s.key in (("Option", "is_some"), ("Option", "take")) and s.arg(0) == cfield("residual")]
+    first = [s for s in obs if aws and all(bi.body.dominates(s.block, a.block) for a in aws)]
+    te = fe = []
+    if not first:
+        probs.append("flush does not look at the stored residual before draining the group")
     else:
-        t = tests[0]
-        if not all(bi.body.dominates(t.block, a.block) for a in aws) or not aws:
-            probs.append("the stored residual is not tested before the group is drained")
-        te = bi.outcome_edges(t, True)
-        rets = flow.returned_values(bi)
-        want = ("field", ("variant", ("call", ("Option", "take"), (cfield("residual"),), None), "Some"), 0)
+        t = first[0]
+        if t.key == ("Option", "is_some"):
+            te, fe = bi.outcome_edges(t, True), bi.outcome_edges(t, False)
+        else:
+            te, fe = bi.outcome_edges(t, "Some"), bi.outcome_edges(t, "None")
 
         def is_stored(t_):
             if t_[0] == "call" and t_[1][1] == "from_residual" and t_[2]:
                 a = t_[2][0]
-                return a[0] == "field" and a[1][0] == "variant" and a[1][1][0] == "call" and a[1][1][1] in (("Option", "take"), ("Option", "unwrap")) \
-                    and a[1][1][2] and a[1][1][2][0] == cfield("residual")
+                return a[0] == "field" and a[1][0] == "variant" and a[1][2] == "Some" and a[1][1][0] == "call" and \
+                    a[1][1][1] in (("Option", "take"), ("Option", "unwrap")) and a[1][1][2] and a[1][1][2][0] == cfield("residual")
             return False
         good = [blk for blk, k, p, t_ in rets if is_stored(t_)]
         okr, bad = bi.must_reach([x for _, x in te], good, bi.return_blocks)
@@ -155,7 +158,7 @@ def rule_branch(ctx, M):
             s_, n_ = costream.await_value_tests(bi, a)
             nones += n_
         outs = [blk for blk, k, p, t_ in rets if t_[0] == "call" and t_[1][1] == "from_output"]
-        if not outs or not all(bi.guarded_by(x, nones) for x in outs) or not all(bi.guarded_by(x, bi.outcome_edges(t, False)) for x in outs):
+        if not outs or not all(bi.guarded_by(x, nones) for x in outs) or not fe or not all(bi.guarded_by(x, fe) for x in outs):
             probs.append("from_output(()) can be returned without the group having drained / with a residual stored")
         other = [blk for blk, k, p, t_ in rets if not (t_[0] == "call" and t_[1][1] in ("from_output", "from_residual"))]
         if other:
@@ -227,7 +230,14 @@ def rule_stop(ctx, M):
     b = ent["drive"]
     bi = M.info(b)
     be = break_edges(bi)
-    ctx.require(len(be) >= 3, "drive: ConsumerState::Break edges (found %d, expected 3: progress result and two send results)" % len(be))
+    ctx.require(len(be) >= 2, "drive: ConsumerState::Break edges (found %d, expected the progress result and every send result)" % len(be))
+    # every awaited send result and the progress result is examined for Break
+    untested = []
+    for a in costream.awaits(bi):
+        if a.kind is not None and a.kind[1] == "send" and a.kind[0] in ("Consumer",):
+            if not any(flow.derives_from(e["subject"], a.site.block) and bi.edge(e, "Break") for e in bi.switches if e["kind"] == "discr"):
+                untested.append(a.where)
+    ctx.check(not untested, "C14.STOP", b.def_, "every consumer.send(..).await result is examined for Break", site=b.span, path=untested)
     nxt = {blk for blk, _, _ in costream.source_next_points(M, bi)}
     sends = {s.block for s in costream.send_points(bi)}
     fl = [s.block for s in costream.flush_points(bi)]
